@@ -109,7 +109,7 @@ func main() {
 		}
 		mu.Unlock()
 		ctx, cancel := context.WithCancel(context.Background())
-		cs := clientsets.NewClientSetsWithRestConfig(ctx, stubs[0].URL, "verif", &rest.Config{})
+		cs := clientsets.NewClientSetsWithRestConfig(ctx, stubs[0].URL, "verif", &rest.Config{QPS: 5000, Burst: 5000})
 		deadline := time.Now().Add(10 * time.Second)
 		for {
 			if _, err := cs.ShardIDFor("x"); err == nil {
